@@ -168,6 +168,26 @@ def run_one(m, keep=False):
         shutil.rmtree(tmp, ignore_errors=True)
 
 
+def run_seeded(name):
+    """Apply an archived sub-agent patch (seeded/<name>/patch.diff) to a scratch copy; its property's check must exit 1."""
+    d = os.path.join(HERE, "seeded", name)
+    prop = name.split("-")[0]
+    tmp = tempfile.mkdtemp(prefix="ginverif_seed_")
+    try:
+        shutil.copytree(os.path.join("/repo", "src"), os.path.join(tmp, "src"))
+        r = subprocess.run(["git", "apply", os.path.join(d, "patch.diff")], cwd=tmp, capture_output=True, text=True)
+        if r.returncode != 0:
+            return (prop, "seeded:" + name[4:26], "STALE", "patch does not apply: %s" % r.stderr.strip()[:100])
+        env = dict(os.environ)
+        env["GINVERIF_NO_EVIDENCE"] = "1"
+        r = subprocess.run([os.path.join(HERE, "check"), prop, "--repo", tmp, "--tier", "quick"], capture_output=True, text=True, env=env, cwd=HERE)
+        first = [l for l in r.stdout.splitlines() if l.startswith("  ")][:1]
+        status = "OK" if r.returncode == 1 else ("ERROR" if r.returncode == 2 else "MISSED")
+        return (prop, "seeded:" + name[4:26], status, first[0].strip()[:160] if first else r.stdout.strip()[-160:])
+    finally:
+        shutil.rmtree(tmp, ignore_errors=True)
+
+
 def main(argv):
     jobs = 8
     props = []
@@ -180,8 +200,12 @@ def main(argv):
         props.append(argv[i].upper())
         i += 1
     ms = [m for m in MUTANTS if (not props or m[0] in props) and (m[0], m[1]) not in SKIP]
+    seeds = []
+    sd = os.path.join(HERE, "seeded")
+    if os.path.isdir(sd):
+        seeds = sorted(n for n in os.listdir(sd) if os.path.isfile(os.path.join(sd, n, "patch.diff")) and (not props or n.split("-")[0] in props))
     with ThreadPoolExecutor(jobs) as ex:
-        res = list(ex.map(run_one, ms))
+        res = list(ex.map(run_one, ms)) + list(ex.map(run_seeded, seeds))
     bad = 0
     for r in res:
         print("%-4s %-22s %-11s %s" % r)
